@@ -44,7 +44,7 @@ CHECKS = [
         NOTE + "Not decided: grammar-level rules (keyword spellings, comments, line structure, sections), repeated-term merging in constraint rows (buildMatrix: symbolic-size allocations exhaust the solver), the LP-format bound section parser, digit counts beyond the stated bound.",
         TECH, "DESIGN.md 4/C10"),
     chk("C11", "other",
-        "Per-function bounded contract checks of reader functions for every byte content of their (capacity-reduced) buffers: the literal scanner on arbitrary short strings (no division by zero, no out-of-bounds read), the three error formatters for every formatted length (no write outside the 256-byte buffer, error reaches the collector), next_line progress (consumes a line or sets eof). Also: twelve character-level scanners of the LP reader and five of the MPS reader on every line content of at most 4 bytes with arbitrary stale bytes behind the terminator (the cursor stays inside the line text; fields are terminated), the basis-file reader ILLlib_readbasis on every sequence of at most 4 records, transferRanges on N rows, the symbol table scenarios, the MPS section state machine (ILLread_mps, read_mps_section, read_mps_line_in_section and the name / objective-sense handlers) on every file of at most 3 lines -- no row is added after an accepted RHS / RANGES header, no column after a BOUNDS header, handlers only in the first occurrence of a section --, the four MPS data-line handlers with every callee returning arbitrary results, and buildMatrix on one constructed shape (dropped column before a repeated term).",
+        "Per-function bounded contract checks of reader functions for every byte content of their (capacity-reduced) buffers: the literal scanner on arbitrary short strings (no division by zero, no out-of-bounds read), the three error formatters for every formatted length (no write outside the 256-byte buffer, error reaches the collector), next_line progress (consumes a line or sets eof). Also: twelve character-level scanners of the LP reader and five of the MPS reader on every line content of at most 4 bytes with arbitrary stale bytes behind the terminator (the cursor stays inside the line text; fields are terminated), the basis-file reader ILLlib_readbasis on every sequence of at most 4 records, transferRanges on N rows, the symbol table scenarios, the MPS section state machine (ILLread_mps, read_mps_section, read_mps_line_in_section and the name / objective-sense handlers) on every file of at most 3 lines (thorough tier) -- no row is added after an accepted RHS / RANGES header, no column after a BOUNDS header, handlers only in the first occurrence of a section --, the four MPS data-line handlers with every callee returning arbitrary results, and buildMatrix on one constructed shape (dropped column before a repeated term).",
         NOTE + "Not decided: whole-file behaviour, compressed streams, reader functions not listed in the evidence; buffer capacity ILL_namebufsize is reduced from 131072 to 512 (16 for the character-level scanner groups) in the scratch copy for these groups (one #define line, must-fire); the section state machine of the LP parser (lp.c) is not under contract; special ordered sets in the reader are beyond the tool (tried, see DESIGN.md 9.2).",
         TECH, "DESIGN.md 4/C11"),
     chk("C12", "other",
